@@ -5,7 +5,7 @@
 //!
 //! Scenario (JSON): {"name":..,"workers":1..2,"shutdown_s":1..2,"conns":N,"stop":"graceful"|"forced",
 //!   "release":[{"c":0,"at":"before_stop"|"never"|<ms after stop>}], "second_stop":bool, "drop_future":bool,
-//!   "pause_first":bool, "late_connect":bool, "race_conns":N, "stop_after_done":bool, "stop_gap_ms":N, "busy_ms":N}
+//!   "pause_first":bool, "late_connect":bool, "race_conns":N, "stop_after_done":bool, "faults_first":N, "stop_gap_ms":N, "busy_ms":N}
 //! accept_delay_ms (solo scenarios only): while set, the accept thread is held that long whenever it logs "resume accepting
 //!   connections" (tracing subscriber); resume_then_stop: resume() and stop() are issued back to back
 //! busy_ms: every connection handler blocks its worker thread for N ms right after it started (no yield)
@@ -146,9 +146,16 @@ pub fn run_scenario(sc: &Value) -> Vec<Value> {
     let rel = release.clone();
     let stop_gap = sc["stop_gap_ms"].as_u64().unwrap_or(0);
     let busy_ms = sc["busy_ms"].as_u64().unwrap_or(0);
+    let poison = Arc::new(AtomicBool::new(false));
+    let poison2 = poison.clone();
     let srv_thread = thread::spawn(move || {
         // the Server future (and with it handle_cmd) is polled on this thread
         actix_server::verif::set_stop_gap_ms(stop_gap);
+        let hl = slog.clone();
+        actix_server::verif::set_srv_handles_cb(Box::new(move |idx, handles| {
+            let hs: Vec<Value> = handles.iter().map(|(i, live)| json!([i, live])).collect();
+            hl.emit(json!({"e": "WorkerReplaced", "idx": idx, "handles": hs}));
+        }));
         let sys = actix_rt::System::new();
         sys.block_on(async move {
             let lst = std::net::TcpListener::bind("127.0.0.1:0").unwrap();
@@ -162,15 +169,25 @@ pub fn run_scenario(sc: &Value) -> Vec<Value> {
                 .listen("e2e", lst, move || {
                     let l3 = l2.clone();
                     let rel = rel.clone();
+                    let poison = poison2.clone();
+                    l3.emit(json!({"e": "FactoryNew"}));
                     fn_service(move |mut stream: TcpStream| {
                         let l4 = l3.clone();
                         let rel = rel.clone();
+                        if poison.swap(false, Ordering::SeqCst) {
+                            // panics inside `Service::call`: the worker future (and its thread) dies
+                            l4.emit(json!({"e": "Poisoned"}));
+                            panic!("poisoned call");
+                        }
                         async move {
                             let mut b = [0u8; 1];
                             if stream.read_exact(&mut b).await.is_err() {
                                 return Ok::<_, ()>(());
                             }
                             let c = b[0] as usize;
+                            if c >= 250 {
+                                return Ok(()); // probe connections of the fault prologue
+                            }
                             l4.emit(json!({"e": "ConnStarted", "c": c, "thread": format!("{:?}", thread::current().id())}));
                             if busy_ms > 0 {
                                 // a handler that does not yield: the worker THREAD is blocked (it cannot even look at a
@@ -197,6 +214,36 @@ pub fn run_scenario(sc: &Value) -> Vec<Value> {
     });
     let (handle, addr) = rx.recv_timeout(Duration::from_secs(10)).expect("server start");
 
+    // "faults_first": N worker deaths (a service call panics), each found by the accept thread and repaired by the server,
+    // before anything else happens: the server's own bookkeeping of worker handles has been through N replacements
+    let nfaults = sc["faults_first"].as_u64().unwrap_or(0) as usize;
+    let count = |what: &str| log.take().iter().filter(|v| v["e"] == what).count();
+    if nfaults > 0 {
+        wait_until(Duration::from_secs(5), || count("FactoryNew") >= workers);
+    }
+    for k in 0..nfaults {
+        let made = count("FactoryNew");
+        poison.store(true, Ordering::SeqCst);
+        let mut tries = 0;
+        while count("Poisoned") <= k && tries < 50 {
+            if let Ok(mut s) = StdTcpStream::connect_timeout(&addr, Duration::from_millis(500)) {
+                let _ = s.write_all(&[254]);
+            }
+            thread::sleep(Duration::from_millis(20));
+            tries += 1;
+        }
+        // probe connections until a dispatch has met the dead worker and the replacement has built its service
+        tries = 0;
+        while count("FactoryNew") <= made && tries < 100 {
+            if let Ok(mut s) = StdTcpStream::connect_timeout(&addr, Duration::from_millis(500)) {
+                let _ = s.write_all(&[253]);
+            }
+            thread::sleep(Duration::from_millis(20));
+            tries += 1;
+        }
+        log.emit(json!({"e": "FaultRepaired", "k": k, "ok": count("FactoryNew") > made}));
+        thread::sleep(Duration::from_millis(100));
+    }
     // clients
     let mut clients = vec![];
     for c in 0..nconn {
